@@ -3,7 +3,9 @@
 //!
 //! input lines:  A <hex utf8 text> | V <hex prog> | D <hex prog>
 //!               X <vm> <d> <e> <pmod8> <mmod8> <budget> <hex prog> <hex pkt> <hex mbuff> <jit|nojit>
-//!                 [c:<default>:<pc>=<size>,... | -] [h:<id>=<pool>,... | -]
+//!                 [c:<default>:<pc>=<size>,... | -] [h:<id>=<pool>,... | -] [placement of the JIT memory]
+//!               placement: a = anywhere | n<i> = 16 MiB above pool helper i | p<k>:<i> / m<k>:<i> = the
+//!               page-aligned address 2^31 above / below helper i, moved k pages towards the helper
 //! output lines: one per input line, flushed immediately.
 
 use std::io::{BufRead, Write};
@@ -112,6 +114,51 @@ fn parse_pairs(s: &str) -> Vec<(u64, u64)> {
     s.split(',').filter_map(|kv| kv.split_once('=')).filter_map(|(a, b)| Some((a.parse().ok()?, b.parse().ok()?))).collect()
 }
 
+/// Executable memory at a chosen distance from a pool helper (the no_std JIT runs from memory the
+/// caller supplies: where that memory lies relative to the helpers is part of the input).
+fn placed_exec_memory(spec: &str) -> &'static mut [u8] {
+    const LEN: usize = 1 << 20;
+    let parse = |s: &str| -> (usize, usize) {
+        let (k, i) = s.split_once(':').unwrap_or(("0", s));
+        (k.parse().unwrap_or(0), i.parse().unwrap_or(0))
+    };
+    let want: Option<usize> = match spec.as_bytes().first() {
+        Some(b'n') => Some(((POOL[parse(&spec[1..]).1 % 8] as usize) & !0xfff) + (16 << 20)),
+        Some(b'p') => {
+            let (k, i) = parse(&spec[1..]);
+            ((POOL[i % 8] as usize).checked_add(1 << 31)).map(|a| (a & !0xfff) - k * 4096)
+        }
+        Some(b'm') => {
+            let (k, i) = parse(&spec[1..]);
+            ((POOL[i % 8] as usize).checked_sub(1 << 31)).map(|a| (a & !0xfff) + k * 4096)
+        }
+        _ => None,
+    };
+    if let Some(addr) = want {
+        // regions placed earlier in this process are reused
+        static mut PLACED: Vec<usize> = Vec::new();
+        unsafe {
+            let placed = &mut *std::ptr::addr_of_mut!(PLACED);
+            if placed.contains(&addr) {
+                return std::slice::from_raw_parts_mut(addr as *mut u8, LEN);
+            }
+            let p = libc::mmap(addr as *mut libc::c_void, LEN, libc::PROT_READ | libc::PROT_WRITE | libc::PROT_EXEC, libc::MAP_ANONYMOUS | libc::MAP_PRIVATE | libc::MAP_FIXED_NOREPLACE, -1, 0);
+            if std::env::var_os("VERIF_DEBUG_PLACE").is_some() {
+                eprintln!("placement {spec}: wanted {addr:#x}, mmap gave {:#x} (helper at {:#x})", p as usize, POOL[0] as usize);
+            }
+            if p != libc::MAP_FAILED && p as usize == addr {
+                placed.push(addr);
+                // leaked on purpose: a handful of placements per run
+                return std::slice::from_raw_parts_mut(p as *mut u8, LEN);
+            }
+            if p != libc::MAP_FAILED {
+                libc::munmap(p, LEN);
+            }
+        }
+    }
+    exec_memory()
+}
+
 /// interpreter and JIT results of one program: "i:<ok v pkt|err|panic> j:<ok v pkt|cerr|panic>"
 fn exec_line(f: &[&str]) -> String {
     let vm = f[1];
@@ -128,6 +175,7 @@ fn exec_line(f: &[&str]) -> String {
         let (d, t) = spec.split_once(':')?;
         Some((parse_pairs(t).into_iter().map(|(pc, s)| (pc as usize, s as u16)).collect(), d.parse().ok()?))
     });
+    let place: &str = f.get(13).copied().unwrap_or("a");
     let helpers: Vec<(u32, u8)> = f.get(12).and_then(|x| x.strip_prefix("h:")).map(|spec| parse_pairs(spec).into_iter().map(|(id, p)| (id as u32, p as u8)).collect()).unwrap_or_default();
     let mut out = String::new();
     for engine in ["i", "j"] {
@@ -161,7 +209,7 @@ fn exec_line(f: &[&str]) -> String {
                     if engine == "i" {
                         Ok($interp.map_err(|_| ()))
                     } else {
-                        $vmv.set_jit_exec_memory(exec_memory()).unwrap();
+                        $vmv.set_jit_exec_memory(placed_exec_memory(place)).unwrap();
                         match $vmv.jit_compile() {
                             Err(_) => Err(()),
                             Ok(()) => Ok(unsafe { $jit }.map_err(|_| ())),
